@@ -2,7 +2,9 @@
 
 TIMEOUTS = [None, 2, 0.2, 0.05, 0.005]
 
-BENIGN_RAISES = ["ValueError", "KeyError", "LvError", "SystemExit", "KeyboardInterrupt", "RuntimeError", "LvFalsy"]
+BENIGN_RAISES = ["ValueError", "KeyError", "LvError", "SystemExit", "KeyboardInterrupt", "RuntimeError", "LvFalsy",
+                 # classes an executor might be tempted to treat specially (retry, swallow, take for its own signals)
+                 "MemoryError", "RecursionError", "StopIteration", "TimeoutError", "GeneratorExit", "EOFError", "BrokenPipeError"]
 
 
 def t_ok(rng):
@@ -262,8 +264,13 @@ def g_crash(rng, force_churn=False, family=None):
     return prog, {"gen": "g_crash", "kind": kind, "kw": kw, "inline_death": inline < 0.35, "second_wave": second_wave, "churn": churn, "sigchld_ignore": rng.random() < 0.15}
 
 
-def g_route(rng):
-    """C03: routing, at-most-once, map; time-outs, respawns and resizes in the history."""
+def g_route(rng, wrapped=None):
+    """C03: routing, at-most-once, map; time-outs, respawns and resizes in the history.
+    wrapped: some submissions go through ONE stateful callable wrapped with wrap_non_picklable_objects whose state the
+    parent changes between submissions."""
+    if wrapped is None:
+        wrapped = rng.random() < 0.2
+    wcount = [0]
     kind = "reusable" if rng.random() < 0.6 else "plain"
     kw = {"max_workers": rng.randint(1, 4), "timeout": rng.choice([None, 10, 0.05, 0.02, 0.005]) if kind == "plain" else rng.choice([10, 0.05, 0.02, 0.005])}
     nthreads = rng.choice([1, 2, 3, 4])
@@ -273,7 +280,14 @@ def g_route(rng):
         for i in range(rng.randint(6, 40)):
             r = rng.random()
             if r < 0.62:
-                ops.append({"op": "submit", "ex": "e", "task": t_ok(rng) if rng.random() < 0.8 else t_sleep(rng, 0.001, 0.02)})
+                if rng.random() < 0.12:
+                    ops.append({"op": "submit", "ex": "e", "task": t_raise(rng)})  # a raising body is executed at most once too
+                    continue
+                sop = {"op": "submit", "ex": "e", "task": t_ok(rng) if rng.random() < 0.8 else t_sleep(rng, 0.001, 0.02)}
+                if wrapped and sop["task"]["k"] == "ok" and rng.random() < 0.5:
+                    wcount[0] += 1
+                    sop["wrapped"] = {"obj": "w%d" % ti, "set": wcount[0] if rng.random() < 0.7 else wcount[0] - 1, "keep_wrapper": ti % 2 == 0}
+                ops.append(sop)
             elif r < 0.74:
                 ops.append({"op": "cancel", "fut": "__recent__"})
             elif r < 0.84:
@@ -303,7 +317,7 @@ def g_route(rng):
         for ti, ops in enumerate(threads):
             ops.insert(1 if ti == 0 else 0, {"op": "barrier", "name": "start"})
     renumber_cancels(threads)
-    return prog, {"gen": "g_route", "kind": kind, "kw": kw, "nthreads": nthreads}
+    return prog, {"gen": "g_route", "kind": kind, "kw": kw, "nthreads": nthreads, "wrapped": bool(wrapped)}
 
 
 PICKLE_EXCS = ["ZeroDivisionError", "ValueError", "SystemExit", "struct.error", "IndexError", "BrokenPipeError", "ConnectionResetError", "EBADF", "closed_socket", "TimeoutError"]
@@ -446,8 +460,29 @@ def g_drain(rng):
     return prog, {"gen": "g_drain", "kind": kind, "kw": kw, "position": position, "how": how, "slow_pickle": slow, "family": family, "env": env}
 
 
-def g_idle(rng):
-    """C07: bursts separated by pauses around the idle timeout; resizes and shutdown in the same history."""
+def g_idle(rng, family=None):
+    """C07: bursts separated by pauses around the idle timeout; resizes and shutdown in the same history.
+    family 'nowait_pending': shutdown(wait=False) while slowly pickled work is still on its way and every idle timer fires
+    (the manager thread must respawn workers for a pool that is already shutting down);
+    family 'submit_into_expiring_pool': single submits into a started, idle pool whose workers are about to expire (the
+    check delays every statement of submit() in turn)."""
+    if family == "nowait_pending":
+        kind = rng.choice(["plain", "plain", "reusable"])
+        tmo = rng.choice([0.05, 0.1, 0.2])
+        kw = {"max_workers": rng.randint(1, 3), "timeout": tmo}
+        ops = [{"op": "new", "ex": "e", "kind": kind, "kw": kw}, {"op": "submit", "ex": "e", "task": t_ok(rng)}, {"op": "wait", "futs": "all"}]
+        for _ in range(rng.randint(3, 6)):
+            ops.append({"op": "submit", "ex": "e", "task": t_slow_pickle(rng, round(rng.choice([3, 6]) * tmo + 0.1, 3))})
+        ops += [{"op": "shutdown", "ex": "e", "wait": False}, {"op": "wait", "futs": "all"}, {"op": "join_mgr", "ex": "e"}]
+        return {"threads": [ops], "end": "return"}, {"gen": "g_idle", "kind": kind, "kw": kw, "ending": "nowait", "family": family}
+    if family == "submit_into_expiring_pool":
+        kind = rng.choice(["plain", "reusable"])
+        tmo = rng.choice([0.05, 0.1])
+        kw = {"max_workers": rng.randint(1, 3), "timeout": tmo}
+        ops = [{"op": "new", "ex": "e", "kind": kind, "kw": kw}, {"op": "submit", "ex": "e", "task": t_ok(rng)}, {"op": "wait", "futs": "all"},
+               {"op": "sleep", "d": round(tmo * rng.choice([0.3, 0.7]), 3)},
+               {"op": "submit", "ex": "e", "task": t_ok(rng)}, {"op": "wait", "futs": "all"}, {"op": "quiesce", "ex": ["e"]}, {"op": "shutdown", "ex": "e", "wait": True}]
+        return {"threads": [ops], "end": "return"}, {"gen": "g_idle", "kind": kind, "kw": kw, "ending": "shutdown", "family": family}
     kind = "reusable" if rng.random() < 0.6 else "plain"
     tmo = rng.choice([0.5, 0.1, 0.02, 0.005, 0.001])
     mw = rng.randint(1, 6)
